@@ -20,6 +20,80 @@ pub fn harness_error(msg: &str) -> ! {
     std::process::exit(2);
 }
 
+// --- trace logging pass -------------------------------------------------------------------------
+
+/// Logger that formats every record into the void: with the maximum level at Trace the arguments
+/// of scnr's `trace!` / `debug!` calls are evaluated and formatted as they are under
+/// `RUST_LOG=trace`, without output.
+struct SinkLogger;
+impl log::Log for SinkLogger {
+    fn enabled(&self, _: &log::Metadata) -> bool {
+        true
+    }
+    fn log(&self, record: &log::Record) {
+        struct Null;
+        impl std::fmt::Write for Null {
+            fn write_str(&mut self, _: &str) -> std::fmt::Result {
+                Ok(())
+            }
+        }
+        let _ = std::fmt::write(&mut Null, *record.args());
+    }
+    fn flush(&self) {}
+}
+static SINK: SinkLogger = SinkLogger;
+static TRACE_ON: AtomicBool = AtomicBool::new(false);
+
+/// Switches the process-wide log level between Off and Trace (sink logger).
+pub fn set_trace_logging(on: bool) {
+    static INIT: std::sync::Once = std::sync::Once::new();
+    INIT.call_once(|| {
+        let _ = log::set_logger(&SINK);
+    });
+    log::set_max_level(if on { log::LevelFilter::Trace } else { log::LevelFilter::Off });
+    TRACE_ON.store(on, Ordering::Relaxed);
+}
+pub fn trace_logging() -> bool {
+    TRACE_ON.load(Ordering::Relaxed)
+}
+
+// --- watchdog for fixed cases ---------------------------------------------------------------------
+
+static FIXED_WATCH: Mutex<Vec<(std::thread::ThreadId, Instant, String)>> = Mutex::new(Vec::new());
+
+/// Runs `f` (the check of one fixed case) registered with the fixed-case watchdog.
+fn watched<T>(case: &Case, f: impl FnOnce() -> T) -> T {
+    let me = std::thread::current().id();
+    FIXED_WATCH.lock().unwrap().push((me, Instant::now(), case.to_json().to_string()));
+    let r = f();
+    FIXED_WATCH.lock().unwrap().retain(|e| e.0 != me);
+    r
+}
+
+/// Detached monitor: a fixed case that runs longer than the check's limit ends the process - as a
+/// violation where a stuck call violates the property (C07, C14), as inconclusive (exit 2) otherwise.
+fn start_fixed_watchdog(check: &dyn Check, cfg: &RunConfig) {
+    let (id, seed, tier) = (check.id().to_string(), cfg.seed, tier_name(cfg.thorough));
+    let (limit, is_violation) = (check.fixed_case_timeout_s(), check.hang_is_violation());
+    std::thread::spawn(move || loop {
+        std::thread::sleep(std::time::Duration::from_millis(500));
+        let stuck = FIXED_WATCH.lock().unwrap().iter().find(|e| e.1.elapsed().as_secs() >= limit).map(|e| e.2.clone());
+        if let Some(json) = stuck {
+            if is_violation {
+                let case = serde_json::from_str::<Value>(&json).ok().and_then(|v| Case::from_json(&v).ok()).unwrap_or_default();
+                let f = Failure::new("hang", format!("a fixed case did not finish within {} s (trace logging: {})", limit, trace_logging()));
+                let path = write_replay(&id, "fixed", seed, tier, &case, &f, None);
+                eprintln!("violation of {}: {}", id, f.what);
+                println!("VIOLATION property={} replay={}", id, path.display());
+                std::process::exit(1);
+            } else {
+                eprintln!("INCONCLUSIVE: watchdog fired on fixed case {}", json.chars().take(400).collect::<String>());
+                std::process::exit(2);
+            }
+        }
+    });
+}
+
 // --- panic capture ----------------------------------------------------------------------------
 
 thread_local! {
@@ -156,6 +230,19 @@ pub trait Check: Sync + Send {
     fn fail_fast_fixed(&self) -> bool {
         false
     }
+    /// share of the generated cases that is run a second time (other streams) with the process-wide
+    /// log level at Trace (scnr's `trace!` arguments are evaluated only then); 0 = no such pass
+    fn trace_pass_fraction(&self) -> f64 {
+        0.125
+    }
+    /// whether the fixed cases are repeated in the trace pass
+    fn trace_pass_fixed(&self) -> bool {
+        false
+    }
+    /// watchdog limit for one fixed case (fixed cases are larger than generated ones)
+    fn fixed_case_timeout_s(&self) -> u64 {
+        self.case_timeout_s().saturating_mul(10)
+    }
     /// watchdog limit for one generated case
     fn case_timeout_s(&self) -> u64 {
         60
@@ -272,6 +359,7 @@ pub fn write_replay(
         "observed": f.observed,
         "panic": f.panic,
         "stream": stream.map(hex),
+        "log_level": if trace_logging() { "trace" } else { "off" },
     });
     let text = serde_json::to_string_pretty(&v).unwrap();
     let mut h = std::collections::hash_map::DefaultHasher::new();
@@ -357,7 +445,18 @@ struct Watch {
 }
 
 pub fn run_generated(check: &dyn Check, cfg: &RunConfig, agg: &mut Aggregate) -> Option<(Case, Failure, Option<Vec<u8>>, &'static str)> {
-    let total = ((check.cases(cfg.thorough) as f64) * cfg.scale).ceil() as usize;
+    run_generated_pass(check, cfg, agg, 1.0, 0)
+}
+
+/// `fraction` of the tier's cases, drawn from streams seeded with `seed + salt`.
+pub fn run_generated_pass(
+    check: &dyn Check,
+    cfg: &RunConfig,
+    agg: &mut Aggregate,
+    fraction: f64,
+    salt: u64,
+) -> Option<(Case, Failure, Option<Vec<u8>>, &'static str)> {
+    let total = ((check.cases(cfg.thorough) as f64) * cfg.scale * fraction).ceil() as usize;
     let threads = cfg.threads.max(1);
     let per_thread = total.div_ceil(threads);
     let stop = Arc::new(AtomicBool::new(false));
@@ -410,7 +509,7 @@ pub fn run_generated(check: &dyn Check, cfg: &RunConfig, agg: &mut Aggregate) ->
                     cases: per_thread as u32,
                     failure_persistence: None,
                     rng_algorithm: RngAlgorithm::ChaCha,
-                    rng_seed: RngSeed::Fixed(seed_for(cfg.seed, check.id(), t)),
+                    rng_seed: RngSeed::Fixed(seed_for(cfg.seed.wrapping_add(salt), check.id(), t)),
                     max_shrink_iters: 4000,
                     max_shrink_time: 30_000,
                     verbose: 0,
@@ -687,6 +786,7 @@ pub fn run_property(check: &dyn Check, cfg: &RunConfig) -> i32 {
     let known = load_known_findings();
 
     let mut violation: Option<(Case, Failure, Option<Vec<u8>>, &'static str)> = None;
+    start_fixed_watchdog(check, cfg);
 
     if let Some((case, f, path)) = run_regressions(check, &mut agg) {
         eprintln!("regression {} fails again", path.display());
@@ -709,7 +809,7 @@ pub fn run_property(check: &dyn Check, cfg: &RunConfig) -> i32 {
                         if failed.lock().unwrap().is_some() {
                             break;
                         }
-                        match guard(|| check.check(case)) {
+                        match watched(case, || guard(|| check.check(case))) {
                             Ok(Ok(st)) => {
                                 local.absorb(case, &st);
                                 local.fixed_cases += 1;
@@ -761,6 +861,45 @@ pub fn run_property(check: &dyn Check, cfg: &RunConfig) -> i32 {
     }
     if violation.is_none() {
         violation = run_generated(check, cfg, &mut agg);
+    }
+    // second pass with trace logging switched on (sink logger)
+    if violation.is_none() && check.trace_pass_fraction() > 0.0 {
+        set_trace_logging(true);
+        let before = agg.evaluations;
+        if check.trace_pass_fixed() {
+            for case in check.fixed_cases(cfg.thorough) {
+                match watched(&case, || guard(|| check.check(&case))) {
+                    Ok(Ok(st)) => {
+                        agg.absorb(&case, &st);
+                        agg.fixed_cases += 1;
+                    }
+                    Ok(Err(f)) => {
+                        if check.fail_fast_fixed() {
+                            let path = write_replay(check.id(), "fixed+trace", cfg.seed, tier_name(cfg.thorough), &case, &f, None);
+                            eprintln!("violation of {} (trace logging on): {}\n  expected: {}\n  observed: {}", check.id(), f.what, f.expected, f.observed);
+                            println!("VIOLATION property={} replay={}", check.id(), path.display());
+                            let wall = t0.elapsed().as_secs_f64();
+                            write_evidence(check, cfg, &agg, wall, 1, Value::Null);
+                            println!(
+                                "SUMMARY property={} tier={} cases={} nontrivial={} violations=1 wall_s={:.1}",
+                                check.id(), tier_name(cfg.thorough), agg.evaluations, agg.distinct_nontrivial.len(), wall
+                            );
+                            std::process::exit(1);
+                        }
+                        violation = Some((case, f, None, "fixed+trace"));
+                        break;
+                    }
+                    Err(p) => harness_error(&format!("harness panic on fixed case (trace pass) {}: {}", case.to_json(), p)),
+                }
+            }
+        }
+        if violation.is_none() {
+            violation = run_generated_pass(check, cfg, &mut agg, check.trace_pass_fraction(), 0x7ace).map(|(c, f, b, _)| (c, f, b, "proptest+trace"));
+        }
+        agg.counters.insert("cases_with_trace_logging".into(), agg.evaluations - before);
+        if violation.is_none() {
+            set_trace_logging(false);
+        }
     }
 
     let mut exit = 0;
@@ -824,10 +963,13 @@ pub fn run_property(check: &dyn Check, cfg: &RunConfig) -> i32 {
 /// Replays one saved case through the plain check function.
 pub fn replay_file(check: &dyn Check, path: &Path) -> i32 {
     install_panic_hook();
-    let (case, _) = match read_case_file(path) {
+    let (case, v) = match read_case_file(path) {
         Ok(x) => x,
         Err(e) => harness_error(&e),
     };
+    if v["log_level"].as_str() == Some("trace") {
+        set_trace_logging(true);
+    }
     match guard(|| check.check(&case)) {
         Ok(Ok(_)) => {
             println!("REPLAY property={} holds on {}", check.id(), path.display());
